@@ -3,7 +3,7 @@ import interp_common
 
 MODULES = ["Props.C03", "Props.RunTie"]
 THEOREMS = ["Props.C03.c03_scan_count", "Props.C03.c03_match_count", "Props.C03.c03_ctx_counts", "Props.C03.c03_sameline", "Props.C03.c03_when_order",
-            "Props.RunTie.consider_line_source_is_model", "Props.RunTie.advance_source"]
+            "Props.C03.c03_position_functions", "Props.RunTie.consider_line_source_is_model", "Props.RunTie.advance_source"]
 
 
 def run(check, tier):
